@@ -65,6 +65,7 @@ def run(ck, progs):
         ck.guard("C01-d ORDER child order", lambda: c01d(ck, prog))
         ck.guard("C01-e GUARD handler kept", lambda: c01e(ck, prog, final_builder_view(prog)))
         ck.guard("C01-h GUARD mount keeps handlers", lambda: mount_keeps_handlers(ck, prog, "C01-h GUARD mount keeps handlers"))
+        ck.guard("C01-i GUARD param segment non-empty", lambda: c01i(ck, prog))
         ck.guard("C01-f GUARD segment boundary", lambda: c01f(ck, prog))
         ck.guard("C01-g INVARIANT one param child", lambda: c01g(ck, prog))
     ck.config = None
@@ -77,6 +78,26 @@ def variant_at(f, prog, bb, subject_rx=None):
         if fa.kind == "variant" and fa.allowed and len(fa.allowed) == 1 and re.fullmatch(r"(&(mut )?)*ohkami::request::method::Method", (fa.ty or "").strip()):
             out = tuple(fa.allowed)[0]
     return out
+
+
+def variants_at(f, prog, bb):
+    """the set of Method variants under which block bb runs (an or-pattern arm `GET | HEAD` is reached over several labels of
+    one switch: the facts of a block give the single dominating edge, so the switch edges into the block are read directly)"""
+    one = variant_at(f, prog, bb)
+    if one is not None:
+        return {one}
+    out = set()
+    for sb in sorted(f.live_blocks()):
+        if f.blocks[sb]["t"]["k"] != "switch" or not f.dominates(sb, bb):
+            continue
+        info = f.switch_info(sb)
+        if not info or info.get("kind") != "variant" or not re.fullmatch(r"(&(mut )?)*ohkami::request::method::Method", (info.get("ty") or "").strip()):
+            continue
+        names = prog.variant_names(info["ty"]) or {}
+        for tb, lab in f.succ(sb):
+            if lab != "otherwise" and (tb == bb or f.dominates(tb, bb)) and not any(t2 != tb and bb in f.reachable_from(t2) for t2, l2 in f.succ(sb) if l2 != lab and t2 != tb):
+                out.add(names.get(lab))
+    return {x for x in out if x}
 
 
 def field_refs(f, owner_rx):
@@ -101,15 +122,28 @@ def field_refs(f, owner_rx):
     return out
 
 
+def head_guarded(h, prog, bb):
+    """does block bb run exactly for HEAD requests? -- in the HEAD arm of a match on the method, or under a flag that is
+    `matches!(req.method, Method::HEAD)` (every path to bb takes the HEAD edge of a match on the method)"""
+    if variant_at(h, prog, bb) == "HEAD":
+        return True
+    from .lib import pathsens
+
+    def head_edge(facts):
+        return any(fa.kind == "variant" and fa.allowed == {"HEAD"} and re.fullmatch(r"(&(mut )?)*ohkami::request::method::Method", (fa.ty or "").strip()) for fa in facts)
+    return pathsens.path_avoiding_edges(h, prog, 0, bb, head_edge, constprop=True) is None
+
+
 def c01a(ck, prog):
     R = "C01-a TABLE dispatch"
     sites = 0
     # 1. Router::handle
-    h = prog.coroutine_body(prog.one(r"^ohkami::router::r#final::Router::handle$").key)
+    h0 = prog.coroutine_body(prog.one(r"^ohkami::router::r#final::Router::handle$").key)
+    # the method -> tree table may be a helper of Router
+    h = prog.inlined(h0, 1, lambda caller, callee: callee.crate == caller.crate and (callee.self_ty or "").endswith("router::r#final::Router") and not callee.coroutine and bool(field_refs(callee, r"router::r#final::Router")))
     rows = {}
     for bi, fld, st in field_refs(h, r"router::r#final::Router"):
-        v = variant_at(h, prog, bi, r"method")
-        if v is not None:
+        for v in variants_at(h, prog, bi):
             rows.setdefault(v, set()).add(fld)
     sites += 1
     for m in METHODS + ["HEAD"]:
@@ -117,8 +151,9 @@ def c01a(ck, prog):
         ok = rows.get(m) == want
         ck.ob(R, "handle:%s" % m, ok, h.loc(None), "" if ok else "Router::handle serves %s requests from tree(s) %s, expected %s" % (m, sorted(rows.get(m, [])), sorted(want)), how="%s -> self.%s" % (m, sorted(want)[0]))
     # HEAD: content dropped, headers untouched, in the HEAD arm
-    drops = [bi for bi, st, agg in decision.field_stores(h, "content") if agg is not None and agg[1].get("variant") == "None" and variant_at(h, prog, bi, r"method") == "HEAD"]
-    hdr_mut = [c for c in h.calls() if variant_at(h, prog, c.bb, r"method") == "HEAD" and re.search(r"Response::drop_content$|headers::Headers::(set|insert|remove)", c.callee or "")]
+    head_only = lambda bb: head_guarded(h, prog, bb)
+    drops = [bi for bi, st, agg in decision.field_stores(h, "content") if agg is not None and agg[1].get("variant") == "None" and head_only(bi)]
+    hdr_mut = [c for c in h.calls() if head_only(c.bb) and re.search(r"Response::drop_content$|headers::Headers::(set|insert|remove)", c.callee or "")]
     ok = len(drops) == 1 and not hdr_mut
     ck.ob(R, "handle:HEAD-without-body", ok, h.loc(None), "" if ok else "the HEAD arm does not (only) drop the response body while keeping Content-Type/Content-Length (drops: %d, header mutations: %d)" % (len(drops), len(hdr_mut)), how="res.content = Content::None; headers kept")
     # 2. gen_openapi_doc (openapi builds only)
@@ -279,7 +314,7 @@ def final_builder(prog):
 def node_helper(caller, callee):
     """local helpers that work on the base::Node being converted (compression / ordering moved out of `from`)"""
     return (callee.crate == caller.crate and callee.argc >= 1 and len(callee.locals) > 1
-            and re.search(r"^(&(?:'\w+ )?mut )?ohkami::router::base::Node$", callee.locals[1] or "") is not None
+            and re.search(r"^(&(?:'\w+ )?(mut )?)?ohkami::router::base::Node$", callee.locals[1] or "") is not None
             and not callee.calls_to(r"FangsList::into_proc_with$"))
 
 
@@ -371,6 +406,22 @@ def c01e(ck, prog, f):
                   if fa.sw_bb in body and ((fa.kind == "boolcall" and fa.truth and fa.call.name == "is_none" and re.search(r"arg1\.handler\)?$", decision.describe_deep(f, fa.call.args[0], 3)))
                                            or (fa.kind == "variant" and fa.allowed == {"None"} and re.search(r"arg1\.handler", guards.describe_origin(f, fa.steps))))]
         ok = bool(tested)
+        if not ok:
+            # the test may sit in a predicate helper (`while is_compressible(&base) { .. }`): from the loop head, every path to
+            # the store takes the edge `base.handler is none`
+            from .lib import pathsens
+            hh = min(inner, key=lambda h: len(loops[h]))
+
+            def none_edge(facts):
+                for fa in facts:
+                    if fa.kind == "boolcall" and ((fa.truth and fa.call.name == "is_none") or (not fa.truth and fa.call.name == "is_some")) and re.search(r"arg1\.handler\)?$", decision.describe_deep(f, fa.call.args[0], 4)):
+                        return True
+                    if fa.kind == "variant" and fa.allowed == {"None"} and re.search(r"arg1\.handler", guards.describe_origin(f, fa.steps) + (decision.describe_deep(f, fa.place, 4) if getattr(fa, "place", None) else "")):
+                        return True
+                return False
+            ok = pathsens.path_avoiding_edges(f, prog, hh, bi, none_edge, constprop=True) is None
+            if ok:
+                tested = [type("T", (), {"sw_bb": hh})()]
         ck.ob(R, "compression:handler-store", ok, f.loc(st.get("sp")),
               "" if ok else "while compressing single-child chains the node's handler is replaced by its child's without a test in the same iteration that the node has none: "
               "after absorbing a child that has a handler, a further absorption overwrites it (`/api/users` + `/api/users/active` => `/api/users` answers 404)",
@@ -476,6 +527,14 @@ def c01g(ck, prog):
         g = c.fn
         n += 1
         def none_of_lookup(fa, g=g):
+            if fa.kind == "variant" and fa.allowed == {"None"} and fa.steps and fa.steps[-1][0] == "multi" and getattr(fa, "place", None):
+                # `let existing = match pattern { Some(p) if p.is_param() => self.machable_child_mut(p), _ => None }`: the look-up or
+                # nothing, bound in match arms (a static child that skips it is checked by append_child's own duplicate test)
+                lv = paths.leaf_values(g, ["c", fa.place])
+                calls_ = [l for l in lv if l[0] == "call"]
+                rest = [l for l in lv if l[0] != "call"]
+                if calls_ and all(l[1].name == "machable_child_mut" for l in calls_) and all(l[0] == "other" and isinstance(l[1], list) and l[1][0] == "agg" and l[1][1].get("variant") == "None" for l in rest):
+                    return True
             if not (fa.kind == "variant" and fa.allowed == {"None"} and fa.steps and fa.steps[-1][0] == "call"):
                 return False
             call = fa.steps[-1][1]
@@ -544,3 +603,43 @@ def mount_keeps_handlers(ck, prog, R):
               "erases the handler registered at the mount point (for OPTIONS, where overriding is allowed: the automatic preflight handler, so the preflight of the parent's own route answers 404)" % what,
               how="%s under the Some edge of another_root.handler" % what)
     ck.floor(R, "handler assignments in merge_here", n, 1)
+
+
+def c01i(ck, prog):
+    """`a param segment matches any non-empty segment`: in the Param arm of Pattern::take_through every path to the
+    `Some(remaining)` answer takes a branch edge that establishes that the captured segment is not empty -- the byte after
+    the leading `/` is not another `/`, or the captured slice itself was tested non-empty. (That *something* follows the
+    slash is not enough: in `/users//posts` plenty follows.)"""
+    R = "C01-i GUARD param segment non-empty"
+    from .lib import pathsens
+    f = prog.one(r"router::r#final::Pattern::take_through$")
+    fv = prog.flattened(f, r"split_next_section$|strip_prefix$", combinators=True)
+    sw = [b for b in sorted(fv.live_blocks()) if fv.blocks[b]["t"]["k"] == "switch" and (fv.switch_info(b) or {}).get("kind") == "variant" and "Pattern" in ((fv.switch_info(b) or {}).get("ty") or "")]
+    if not sw:
+        raise AnchorLost("no match on the pattern kind in Pattern::take_through")
+    s0 = sw[0]
+    names = prog.variant_names(fv.switch_info(s0)["ty"]) or {}
+    entry = [tb for tb, lab in fv.succ(s0) if lab != "otherwise" and names.get(lab) == "Param"] or [tb for tb, lab in fv.succ(s0) if lab == "otherwise"]
+    entry = entry[0]
+    somes = [bb for bb, kind, _ in paths.ret_sites(fv) if kind == "Some" and bb in fv.reachable_from(entry) and not any(bb in fv.reachable_from(tb) for tb, lab in fv.succ(s0) if tb != entry)]
+
+    def nonempty_edge(facts):
+        for fa in facts:
+            if fa.kind == "cmp" and fa.op == "Ne" and fa.rhs and fa.rhs[-1][0] == "const" and guards.const_int(fa.rhs[-1][1]) == 47:
+                return True
+            if fa.kind == "cmp" and fa.op == "Ne" and fa.lhs and fa.lhs[-1][0] == "const" and guards.const_int(fa.lhs[-1][1]) == 47:
+                return True
+            if fa.kind == "int" and fa.values is None and fa.excluded and 47 in fa.excluded:
+                return True
+            if fa.kind == "boolcall" and not fa.truth and fa.call.name == "is_empty" and "split_next_section(" in decision.describe_deep(fv, fa.call.args[0], 6):
+                return True
+            if fa.kind == "cmp" and fa.op in ("Gt", "Ge", "Ne") and "split_next_section(" in guards.describe_origin(fv, fa.lhs) and "len" in guards.describe_origin(fv, fa.lhs):
+                return True
+        return False
+    for bb in somes:
+        ex = pathsens.path_avoiding_edges(fv, prog, entry, bb, nonempty_edge, constprop=True)
+        ok = ex is None
+        ck.ob(R, "param:Some-only-for-a-non-empty-segment", ok, fv.loc(fv.blocks[bb]["t"].get("sp")),
+              "" if ok else "the Param arm of take_through answers Some(remaining) on a path that never established that the captured segment is non-empty (the byte after the `/` is not `/`): "
+              "`/users//posts` matches `/users/:id/posts` with an empty id", how="every path to Some(remaining) takes an edge `next byte != '/'` (or a non-emptiness test of the captured slice)")
+    ck.floor(R, "Some answers of the Param arm", len(somes), 1)
